@@ -1124,12 +1124,14 @@ def _le(val1, val2) -> float:
     return inf
 
 
-def _in(val1, val2) -> float:
+def _in(val1, val2, *, strict: bool = False) -> float:
     """Distance computation for 'in'.
 
     Args:
         val1: the first value
         val2: the second value
+        strict: whether an unsupported membership test raises (the test is the one the
+            SUT executes) instead of yielding an infinite distance
 
     Returns:
         the distance
@@ -1138,8 +1140,11 @@ def _in(val1, val2) -> float:
         if val1 in val2:
             return 0.0
     except TypeError:
+        if strict:
+            # The SUT executes this very test and raises before it reaches the jump:
+            # no outcome of the predicate is taken, so none must be recorded.
+            raise
         # If `val2` does not support membership tests, we will handle it below.
-        pass
 
     # TODO(fk) maybe limit this to certain collections?
     #  Check only if collection size is within some range,
@@ -1153,12 +1158,13 @@ def _in(val1, val2) -> float:
     return _guarded(lambda elem, elems: min([_eq(elem, v) for v in elems] + [inf]), val1, val2)
 
 
-def _nin(val1, val2) -> float:
+def _nin(val1, val2, *, strict: bool = False) -> float:
     """Distance computation for 'not in'.
 
     Args:
         val1: the first value
         val2: the second value
+        strict: whether an unsupported membership test raises, see ``_in``
 
     Returns:
         the distance
@@ -1167,6 +1173,8 @@ def _nin(val1, val2) -> float:
         if val1 not in val2:
             return 0.0
     except TypeError:
+        if strict:
+            raise
         # Fallback to assuming element is not in collection if `val2` is not iterable
         return 0.0
     return 1.0
@@ -1409,12 +1417,12 @@ class ExecutionTracer(AbstractExecutionTracer):  # noqa: PLR0904
                     )
                 case PynguinCompare.IN:
                     distance_true, distance_false = (
-                        _in(value1, value2),
+                        _in(value1, value2, strict=True),
                         _guarded(_nin, value1, value2),
                     )
                 case PynguinCompare.NOT_IN:
                     distance_true, distance_false = (
-                        _nin(value1, value2),
+                        _nin(value1, value2, strict=True),
                         _guarded(_in, value1, value2),
                     )
                 case PynguinCompare.IS:
